@@ -312,6 +312,13 @@ void respond(World &W, Peer &p, Exchange &x, const Bytes &query)
 		x.tail = true;
 	}
 	x.plan = ex;
+	x.alloc_at_query = simalloc_calls();
+	x.script_index = x.tail ? -1 : (int)p.xi - 1;
+	if (ex.has("alloc_fail_k")) { // C18: the k-th allocation from here on fails (fault attached to this exchange)
+		simalloc_fail_at(simalloc_calls() + (uint64_t)ex.geti("alloc_fail_k", 1));
+		W.ctx.prop_override = "C18";
+		W.ctx.count("fault_alloc_fail_armed");
+	}
 	if (ex.has("pre"))
 		apply_edits(W, p, ex["pre"]);
 	std::string resp = ex.gets("resp", "auto");
